@@ -375,7 +375,8 @@ Proof. vm_compute. split; reflexivity. Qed.
 Lemma em_spec_in : forall tag fields, In (tag, fields) em_additive_spec ->
   exists fs, em_fn_of gen_merge_fns tag = Some (MfAdd fs) /\ em_fields_eqb fs fields = true.
 Proof.
-  intros tag fields I. destruct em_spec_table as [S _]. unfold em_spec_holds in S. rewrite forallb_forall in S.
+  intros tag fields I. destruct em_spec_table as [S _]. unfold em_spec_holds in S.
+  apply andb_prop in S as [S _]. rewrite forallb_forall in S.
   specialize (S _ I). cbn [fst snd] in S. apply andb_prop in S as [_ S].
   destruct (em_fn_of gen_merge_fns tag) as [[fs|]|]; try discriminate. exists fs. split; [reflexivity|exact S].
 Qed.
